@@ -178,6 +178,14 @@ func main() {
 				r := routes[1+rng.Intn(len(routes)-1)]
 				runBuild(out, base+"."+r, l, level, r, v)
 			}
+			// a twin schema under the SAME type names (other discriminants / renames), in alternation
+			if tw := lib.SchTwin(t, fmt.Sprintf("G%d", i)); tw != nil && level == 'r' {
+				ltw := load(tw)
+				for j := 0; j < 2; j++ {
+					runBuild(out, fmt.Sprintf("g%d.w%d.direct", i, j), ltw, level, "direct", rng.SchValue(tw, level, nil))
+					runBuild(out, fmt.Sprintf("g%d.v%d.direct", i, j), l, level, "direct", rng.SchValue(t, level, nil))
+				}
+			}
 			for j := 0; j < 6; j++ {
 				v, inj := rng.SchValueWithSibling(t, level, fmt.Sprintf("G%dx%c%d", i, level, j))
 				if inj == nil {
